@@ -333,3 +333,20 @@ _add(Cond('relabel_rename_insert', [('pos', 'int'), ('newlab', 'int'), ('nm', 'i
         functions=['Frame.relabel', 'Frame.rename', 'Frame._insert'],
         bounds='2x4 frame; position of the relabelled/insertion column symbolic in 0..3, new label an unbounded symbolic int, new name in 0..2',
         route='Frame.relabel(columns={label: new}), Frame.rename(name), Frame.insert_before/after(label, Series)', timeout=240))
+
+
+
+# ---------------------------------------------------------------- E3: unbounded second opinion on the integer kernel
+
+def extra_queries(tier):
+    """slice_to_ascending_slice translated from its CURRENT source (AST -> z3): for ALL integers start,
+    stop, size >= 0 and positions i, the ascending slice selects exactly the positions of the key."""
+    from vf import e3, world
+    e3.validate_spec()
+    steps = (-1, -2, -3, 2, None) if tier == 'quick' else (-1, -2, -3, -4, -5, -7, -8, 1, 2, 3, None)
+    return e3.check_ascending(world.REPO, steps=steps)
+
+
+def extra_replay(rec):
+    from vf import e3, world
+    return e3.replay_ascending(world.REPO, rec['args'])
